@@ -32,9 +32,18 @@ Theorem C06_opposite_moves_deadlock :
   waiting s = [0; 1]%nat /\ reply_of 0 s = None /\ reply_of 1 s = None.
 Proof. vm_compute. repeat split; reflexivity. Qed.
 Print Assumptions C06_opposite_moves_deadlock.
-(* a move whose source and destination are the same key waits for the lock it holds *)
-Theorem C06_self_move_deadlock :
+(* a move whose source and destination are the same key used to wait for the lock it held (Go's
+   RWMutex is not reentrant); tx.go's lockKey now recognises a record the command already holds, and a
+   rotation keeps its key: the command completes, on lists of two elements and of one, and a DEL that
+   runs concurrently with a one-element rotation sees the key (kernel-evaluated schedules, forced on the
+   implementation by the check) *)
+Theorem C06_self_move_completes :
   let s := run_grants [0;0;0;0;0;0;0;0]%nat (init_state [(1%nat, 2)] [Move 1 1]) in
-  waiting s = [0]%nat /\ reply_of 0 s = None.
-Proof. vm_compute. split; reflexivity. Qed.
-Print Assumptions C06_self_move_deadlock.
+  waiting s = [] /\ reply_of 0 s = Some 1 /\ key_val 1 s = Some 2.
+Proof. vm_compute. repeat split; reflexivity. Qed.
+Print Assumptions C06_self_move_completes.
+Theorem C06_self_move_of_the_last_element_keeps_the_key :
+  let s := run_grants [0;0;0;0;1;0;0;0;1;1;0;0;0;1;0;0;0;1;0;1;0;1]%nat (init_state [(2%nat, 1)] [Move 2 2; Del 2]) in
+  waiting s = [] /\ reply_of 0 s = Some 1 /\ reply_of 1 s = Some 1 /\ key_val 2 s = None.
+Proof. vm_compute. repeat split; reflexivity. Qed.
+Print Assumptions C06_self_move_of_the_last_element_keeps_the_key.
